@@ -84,8 +84,11 @@ def check_adjust(inp, mods=None):
         outputs.update({pn[i]: np.asarray(thetas_[i], float).copy() for i in range(p)})
         return res.Sample(method_name='constructed', outputs=outputs, parameter_names=list(pn), discrepancy_name=None)
 
+    last = {}
+
     def run(S_, O_, thetas_=None):
         smp = sample_of(S_, thetas if thetas_ is None else thetas_)
+        last['sample'], last['before'] = smp, {k: np.array(v, copy=True) for k, v in smp.outputs.items()}
         with native.time_limit(20):
             return pp.adjust_posterior(smp, _model(elfi, O_), list(sn), list(pn) if inp.get('names_given', True) else None,
                                        adjustment='linear' if adj[0] is None else adj[0])
@@ -107,6 +110,26 @@ def check_adjust(inp, mods=None):
         return 'adjust_posterior raised %s: %s' % (type(e).__name__, e)
     if list(r.parameter_names) != pn or r.method_name != 'LinearAdjustment':
         return 'result names %r / method %r' % (r.parameter_names, r.method_name)
+    # frame: the caller's sample is an input, not a scratch area - its outputs must be what they were
+    for k, v0 in last['before'].items():
+        v1 = last['sample'].outputs.get(k)
+        if v1 is None or np.shape(v1) != v0.shape or not np.array_equal(np.asarray(v1, float), v0, equal_nan=True):
+            return "the caller's sample was modified by the adjustment: output %r changed" % k
+    # ... and adjust() is a function of the fitted state: asking twice gives the same values (an in-place update of the sample would adjust twice)
+    try:
+        with np.errstate(all='ignore'), native.time_limit(20):
+            a2 = pp.LinearAdjustment()
+            smp2 = sample_of(S, thetas)
+            a2.fit(sample=smp2, model=_model(elfi, O), summary_names=list(sn), parameter_names=list(pn))
+            first = {k: np.array(a2.adjust().outputs[k], copy=True) for k in pn}
+            second = a2.adjust().outputs
+    except Exception as e:
+        return 'fit / adjust / adjust raised %s: %s' % (type(e).__name__, e)
+    for k in pn:
+        if np.shape(second[k]) != first[k].shape or not np.array_equal(np.asarray(second[k], float), first[k], equal_nan=True):
+            return 'adjust() called twice on one fitted object returns different values for %r (the first call changed the state or the sample)' % k
+        if not np.array_equal(np.asarray(r.outputs[k], float), first[k], equal_nan=True) and adj[0] is None:
+            return 'fit + adjust differs from adjust_posterior for %r' % k
     with np.errstate(all='ignore'):
         exp = adjust_oracle(S, O, thetas)
     for i in range(p):
